@@ -29,6 +29,7 @@ BUDGET = {
     "quick": {"examples": 200, "shards": 8, "case_timeout": 120, "wall_budget": 240},
     "thorough": {"examples": 5000, "shards": 16, "case_timeout": 300, "wall_budget": 1800},
 }
+FUZZ = {"thorough": dict(runs=20000, procs=8, wall_s=600)}
 TOLERANCES = {"error_norm_recomputation": "1e-9 relative", "dt_min": "trial >= dt_min*(1-1e-9) unless it ends at ts[-1]"}
 
 
